@@ -838,7 +838,7 @@ class Evaluator:
         if name == "join" and isinstance(base, SBytes) and not base.segs and len(e.args) == 1:
             v = self.eval(e.args[0], st)
             return self.join(v, e)
-        if name == "tobytes" and isinstance(base, SView):
+        if name == "tobytes" and isinstance(base, (SView, BSlice, SBytes)):
             return base
         if name == "encode" and isinstance(base, SStr):
             enc = self._const_str(e.args[0] if e.args else None, "utf-8", st)
